@@ -17,7 +17,10 @@ import (
 	"errors"
 	"fmt"
 	"io"
+	"runtime"
+	"runtime/debug"
 	"strings"
+	"sync"
 	"sync/atomic"
 	"testing"
 	"testing/synctest"
@@ -31,6 +34,8 @@ import (
 )
 
 var errShutdown = errors.New("verif shutdown")
+
+var poolSetupOnce sync.Once
 
 // fakeFC is the scripted stream flow controller: the window and IsNewlyBlocked are inputs of `pop`.
 type fakeFC struct {
@@ -102,6 +107,13 @@ type runner struct {
 	rdead    bool // the reader saw EOF or an error
 	delivered map[int]bool
 
+	// frame-pool hygiene (see pool.go in this package)
+	pool   *poolTrack
+	parser *wire.FrameParser
+	readOff protocol.ByteCount // bytes the reader got so far (generator: which late deliveries get cut by the sorter)
+	loAt, loStep, loK int      // spair style "late original": op index at which the script starts (0: never), its step, the lost frame
+	ndeliv int
+
 	// generator state
 	plan        int // number of ops of the main phase
 	noReset     bool
@@ -121,6 +133,11 @@ type runner struct {
 
 // NewRunner: pair=false is the sender-only driver, pair=true adds the receive stream.
 func NewRunner(t *testing.T, r *vh.Rand, pair bool) vh.Runner {
+	poolSetupOnce.Do(func() {
+		runtime.GOMAXPROCS(1)  // the frame pool is then one per-P stack: every PutBack is seen by the next sweep
+		debug.SetGCPercent(-1) // no automatic GC between a PutBack and the sweep that observes it
+	})
+	runtime.GC()
 	rn := &runner{t: t, pair: pair, plan: 8 + r.Intn(110), noReset: r.Chance(60), drain: r.Chance(75), delivered: map[int]bool{}}
 	rn.resetAt = r.Chance(30)
 	rn.lateRetrans = r.Chance(45)
@@ -128,6 +145,9 @@ func NewRunner(t *testing.T, r *vh.Rand, pair bool) vh.Runner {
 	if pair {
 		rn.noReset = r.Chance(80)
 		rn.drain = r.Chance(85)
+		if r.Chance(25) {
+			rn.loAt = 1 + r.Intn(14)
+		}
 	}
 	return rn
 }
@@ -198,6 +218,8 @@ func (rn *runner) ensure(sid int64, supports bool) {
 	if rn.str != nil {
 		return
 	}
+	rn.pool = newPoolTrack()
+	rn.parser = wire.NewFrameParser(true, true, true)
 	rn.fc = &fakeFC{}
 	sender := &quic.VerifSender{
 		OnData: func(protocol.StreamID) { rn.evD.Add(1) },
@@ -303,8 +325,9 @@ func (rn *runner) exec(op string) string {
 			return rn.finishR("skip")
 		}
 		e := rn.ems[i]
-		// what arrives is the frame as it was when it left (a parsed copy; the receiver owns it)
-		fr := &wire.StreamFrame{StreamID: rn.str.StreamID(), Offset: e.off, Data: append([]byte(nil), e.data...), Fin: e.fin, DataLenPresent: true}
+		// what arrives is the frame as it was when it left, serialised and parsed again by the real frame parser:
+		// 128 bytes or more of data come in a frame object of the shared pool, which the receive stream owns from now on
+		fr := rn.parseForDelivery(e)
 		rn.delivered[i] = true
 		return rn.finishR(errText(rn.rstr.VerifHandleStreamFrame(fr)))
 	case rn.pair && f[0] == "read" && len(f) == 2:
@@ -363,6 +386,7 @@ func (rn *runner) exec(op string) string {
 			fr := sf.Frame
 			rn.ems = append(rn.ems, &emitted{f: fr, h: sf.Handler, off: fr.Offset, data: append([]byte(nil), fr.Data...), fin: fr.Fin, open: true})
 			fs = fmt.Sprintf("%d:%s:%s", fr.Offset, hexOrDash(fr.Data), b01(fr.Fin))
+			rn.pool.handOut(fr, fmt.Sprintf("e%d", len(rn.ems)-1))
 		}
 		bs := "-"
 		if blocked != nil {
@@ -385,6 +409,7 @@ func (rn *runner) exec(op string) string {
 			e.h.OnAcked(e.f)
 		} else {
 			e.lost = true
+			rn.pool.takenBack(e.f) // the stream owns the frame again (it may queue, split, re-emit or release it)
 			if i%2 == 0 {
 				e.f.DataLenPresent = false // the packer drops the length of the last frame of a packet
 			}
@@ -447,7 +472,7 @@ func (rn *runner) finish(res string) string {
 		}
 	}
 	rn.doneTotal += rn.evX.Load()
-	return fmt.Sprintf("%s ev=%d,%d,%d w=%s %s", res, rn.evD.Load(), rn.evC.Load(), rn.evX.Load(), w, rn.digest())
+	return fmt.Sprintf("%s ev=%d,%d,%d w=%s %s pb=%s", res, rn.evD.Load(), rn.evC.Load(), rn.evX.Load(), w, rn.digest(), rn.pool.sweep())
 }
 
 // finishR is finish for receive-side ops: only the reader's fate is reported.
@@ -461,12 +486,13 @@ func (rn *runner) finishR(res string) string {
 			if r.err != nil {
 				rn.rdead = true
 			}
+			rn.readOff += protocol.ByteCount(len(r.b))
 			rd = fmt.Sprintf("R%s,%s", hexOrDash(r.b), errText(r.err))
 		default:
 			rd = "B"
 		}
 	}
-	return fmt.Sprintf("%s rd=%s", res, rd)
+	return fmt.Sprintf("%s rd=%s pb=%s", res, rd, rn.pool.sweep())
 }
 
 // ---------------------------------------------------------------- generator
@@ -553,6 +579,11 @@ func (rn *runner) GenOp(r *vh.Rand, i int) string {
 		return ""
 	}
 	open := rn.openFrames()
+	if rn.pair && rn.loAt > 0 && i >= rn.loAt && rn.loStep < loDone {
+		if op := rn.genLateOriginal(r); op != "" {
+			return op
+		}
+	}
 	if rn.pair {
 		if op := rn.genPair(r, i); op != "" {
 			return op
@@ -733,6 +764,11 @@ func (rn *runner) genPair(r *vh.Rand, i int) string {
 		if r.Chance(60) { // mostly recent frames
 			k = n - 1 - r.Intn(min(n, 4))
 		}
+		// a late original after its re-split retransmission was delivered (and read): the sorter cuts the frame and,
+		// when little is left of a pooled frame, copies the rest and releases the frame at once
+		if c := rn.cutCandidates(); len(c) > 0 && r.Chance(50) {
+			k = c[r.Intn(len(c))]
+		}
 		return fmt.Sprintf("deliver %d", k)
 	case 2:
 		if rn.rpending || (rn.rdead && r.Chance(90)) {
@@ -752,4 +788,114 @@ func (rn *runner) genPair(r *vh.Rand, i int) string {
 		return fmt.Sprintf("cancelread %d", r.Intn(100))
 	}
 	return ""
+}
+
+// cutCandidates: emitted frames in a pooled-size frame of which only a few (1..127) bytes are still news to the
+// receive stream, because the rest was already read or is covered by other delivered frames.
+func (rn *runner) cutCandidates() []int {
+	var out []int
+	for k, e := range rn.ems {
+		if len(e.data) < protocol.MinStreamFrameBufferSize || rn.delivered[k] {
+			continue
+		}
+		lo, hi := e.off, e.off+protocol.ByteCount(len(e.data))
+		news := 0
+		for p := lo; p < hi && news < protocol.MinStreamFrameBufferSize; p++ {
+			if p < rn.readOff {
+				continue
+			}
+			covered := false
+			for j := range rn.delivered {
+				d := rn.ems[j]
+				if p >= d.off && p < d.off+protocol.ByteCount(len(d.data)) {
+					covered = true
+					break
+				}
+			}
+			if !covered {
+				news++
+			}
+		}
+		if news > 0 && news < protocol.MinStreamFrameBufferSize {
+			out = append(out, k)
+		}
+	}
+	return out
+}
+
+const loDone = 99
+
+// genLateOriginal (spair): a spurious loss. A large frame is declared lost, its retransmission is re-split so that a
+// tail of 1..300 bytes (both sides of protocol.MinStreamFrameBufferSize) travels separately, the head arrives and is
+// read, and only then the delayed ORIGINAL arrives: the sorter cuts it down to the tail. Then the tail's own
+// retransmission arrives too (a duplicate) and everything is read. "" = the script cannot go on; random ops resume.
+func (rn *runner) genLateOriginal(r *vh.Rand) string {
+	stop := func() string { rn.loStep = loDone; return "" }
+	if rn.wpending || rn.closed || rn.reset || rn.shut || rn.rdead {
+		return stop()
+	}
+	step := rn.loStep
+	rn.loStep++
+	switch step {
+	case 0:
+		return "write " + hexOrDash(r.Bytes(int(r.Range(200, 1400))))
+	case 1:
+		return fmt.Sprintf("pop 1452 %d 0", 1<<20)
+	case 2:
+		k := len(rn.ems) - 1
+		if k < 0 || !rn.ems[k].open || len(rn.ems[k].data) < protocol.MinStreamFrameBufferSize+2 {
+			return stop()
+		}
+		rn.loK = k
+		return fmt.Sprintf("lost %d", k)
+	case 3: // the head of the retransmission: everything but `keep` bytes
+		e := rn.ems[rn.loK]
+		keep := int(r.Range(1, 300))
+		if keep >= len(e.data) {
+			keep = len(e.data) / 2
+		}
+		n := protocol.ByteCount(len(e.data) - keep)
+		probe := &wire.StreamFrame{StreamID: rn.str.StreamID(), Offset: e.off, DataLenPresent: true}
+		for b := n + 1; b < n+24; b++ {
+			if probe.MaxDataLen(b, protocol.Version1) == n {
+				return fmt.Sprintf("pop %d %d 0", b, 1<<20)
+			}
+		}
+		return stop()
+	case 4: // the tail
+		if len(rn.ems) != rn.loK+2 {
+			return stop()
+		}
+		return fmt.Sprintf("pop 1452 %d 0", 1<<20)
+	case 5: // everything emitted before the lost frame has arrived, so that the head can be read
+		for k := 0; k < rn.loK; k++ {
+			if !rn.delivered[k] && !rn.ems[k].lost {
+				rn.loStep--
+				return fmt.Sprintf("deliver %d", k)
+			}
+		}
+		return fmt.Sprintf("deliver %d", rn.loK+1)
+	case 6:
+		if rn.rpending {
+			return stop()
+		}
+		return fmt.Sprintf("read %d", 16000)
+	case 7:
+		if rn.rpending {
+			rn.loStep--
+			return fmt.Sprintf("deliver %d", rn.loK+1) // nothing happens; lets the parked read settle
+		}
+		return fmt.Sprintf("deliver %d", rn.loK)
+	case 8:
+		if len(rn.ems) > rn.loK+2 && r.Chance(60) {
+			return fmt.Sprintf("deliver %d", rn.loK+2)
+		}
+		return fmt.Sprintf("deliver %d", rn.loK)
+	case 9:
+		if rn.rpending {
+			return stop()
+		}
+		return fmt.Sprintf("read %d", 16000)
+	}
+	return stop()
 }
